@@ -53,6 +53,33 @@ func verifyBlockSuccession(reader db.KeyValueReader, block *core.Block) error {
 	return nil
 }
 
+// verifyOldRootMatchesHead checks that the state update starts from the state of the current
+// chain head (the zero root for an empty chain). The block hash does not cover the old root, so
+// without this check a state update could be applied on top of an unrelated (e.g. empty) state.
+func verifyOldRootMatchesHead(reader db.KeyValueReader, stateUpdate *core.StateUpdate) error {
+	expectedRoot := &felt.Zero
+
+	height, err := core.GetChainHeight(reader)
+	if err == nil {
+		headRoot, err := core.GetGlobalStateRootByBlockNumber(reader, height)
+		if err != nil {
+			return err
+		}
+		expectedRoot = headRoot
+	} else if !errors.Is(err, db.ErrKeyNotFound) {
+		return err
+	}
+
+	if stateUpdate.OldRoot == nil || !stateUpdate.OldRoot.Equal(expectedRoot) {
+		return fmt.Errorf(
+			"state update's old root %v does not match the head's state root %v",
+			stateUpdate.OldRoot,
+			expectedRoot,
+		)
+	}
+	return nil
+}
+
 // updateBlockHash computes block hash and commitments, mutates block and stateUpdate in place.
 func updateBlockHash(
 	block *core.Block,
